@@ -74,6 +74,7 @@ type Exec struct {
 	frameProps   []string
 	frameOn      bool
 	retHook      func(val Val)
+	retFrame     *Frame
 	externSites  int
 	sym          *symSession
 	unitFType    *Contract
@@ -769,6 +770,9 @@ func (x *Exec) execBlock(fr *Frame, b *ssa.BasicBlock) {
 			}
 			if (fr.top || fr.tail) && x.retHook != nil && len(x.scratches) == 0 {
 				// postconditions and frame are checked per return path (no merged state)
+				if fr.top {
+					x.retFrame = fr
+				}
 				x.retHook(val)
 				x.retGuards = append(x.retGuards, x.st.guard)
 				if fr.tail {
